@@ -245,10 +245,14 @@ func colScenario(r *vk.Run, kind string, withInit bool, steps []step, bp bool, u
 	}
 	desc := fmt.Sprintf("%s/%s init=%v %s", kind, mode, withInit, renderSteps(steps))
 	replay := map[string]any{"kind": kind, "init": withInit, "steps": steps, "bp": bp, "updatesOnly": updatesOnly}
+	ro := []resource.ReadOption{resource.WithUpdatesOnly(updatesOnly)}
+	if bp || len(steps)%2 == 0 {
+		ro = append(ro, resource.WithBackpressure(bp))
+	} // else: no backpressure option at all, the documented default is "off"
 	if kind == "pull" {
-		c.runCol(col.Pull(ctx, resource.WithBackpressure(bp), resource.WithUpdatesOnly(updatesOnly)))
+		c.runCol(col.Pull(ctx, ro...))
 	} else {
-		c.runVal(col.PullID(ctx, "a", resource.WithBackpressure(bp), resource.WithUpdatesOnly(updatesOnly)))
+		c.runVal(col.PullID(ctx, "a", ro...))
 	}
 	defer c.stop()
 	if withInit && !pending {
